@@ -158,6 +158,47 @@ class LeafInit(cohdl.Entity):
             self.o <<= self.o + 1
 
 
+class DGate(cohdl.Entity):
+    a = Port.input(Unsigned[3])
+    o = Port.output(Unsigned[3])
+
+    def architecture(self):
+        @std.concurrent
+        def logic():
+            self.o <<= f_mix(self.a, self.a)
+
+
+class DCell(cohdl.Entity):
+    a = Port.input(Unsigned[3])
+    b = Port.input(Unsigned[3])
+    o = Port.output(Unsigned[3])
+
+    def architecture(self):
+        t = Signal[Unsigned[3]](name="cell_t")
+        DGate(a=self.a, o=t)
+        LeafComb(a=t, b=self.b, o=self.o)
+
+
+class DPathA(cohdl.Entity):
+    a = Port.input(Unsigned[3])
+    b = Port.input(Unsigned[3])
+    o = Port.output(Unsigned[3])
+
+    def architecture(self):
+        DCell(a=self.a, b=self.b, o=self.o)
+
+
+class DPathB(cohdl.Entity):
+    a = Port.input(Unsigned[3])
+    b = Port.input(Unsigned[3])
+    o = Port.output(Unsigned[3])
+
+    def architecture(self):
+        t = Signal[Unsigned[3]](name="pb_t")
+        DCell(a=self.b, b=self.a, o=t)
+        DGate(a=t, o=self.o)
+
+
 class Mid(cohdl.Entity):
     clk = Port.input(Bit)
     a = Port.input(Unsigned[3])
@@ -223,6 +264,14 @@ TREES = [
       "@std.sequential(std.Clock(self.clk))", "async def p2():", "    await self.v[0]", "    r2.next = self.y", "    await cohdl.true", "    r2.next = self.y + r2",
       "@std.concurrent", "def l():", "    self.o1 <<= r1", "    self.o2 <<= r2", "    self.ob <<= f_bits(self.v[3:2])"],
      {"LeafCoro", "LeafBits"}),
+    ("diamond-hierarchy", False,
+     ["DPathA(a=self.x, b=self.y, o=self.o1)", "DPathB(a=self.x, b=self.y, o=self.o2)", "LeafBits(x=self.v[1:0], o=self.ob)"],
+     ["@std.concurrent", "def l():", "    self.o1 <<= f_comb(f_mix(self.x, self.x), self.y)", "    self.o2 <<= f_mix(f_comb(f_mix(self.y, self.y), self.x), f_comb(f_mix(self.y, self.y), self.x))", "    self.ob <<= f_bits(self.v[1:0])"],
+     {"DPathA", "DPathB", "DCell", "DGate", "LeafComb", "LeafBits"}),
+    ("diamond-hierarchy-other-order", False,
+     ["DPathB(a=self.x, b=self.y, o=self.o2)", "DGate(a=self.y, o=self.o1)", "LeafBits(x=self.v[1:0], o=self.ob)"],
+     ["@std.concurrent", "def l():", "    self.o1 <<= f_mix(self.y, self.y)", "    self.o2 <<= f_mix(f_comb(f_mix(self.y, self.y), self.x), f_comb(f_mix(self.y, self.y), self.x))", "    self.ob <<= f_bits(self.v[1:0])"],
+     {"DPathB", "DCell", "DGate", "LeafComb", "LeafBits"}),
     ("kwargs-reordered", False,
      ["pb = Signal[BitVector[2]](name='pb')", "pc = Signal[BitVector[2]](name='pc')", "LeafSel(a=self.x, b=self.y, en=self.en, o=self.o1, p=pb)", "LeafSel(p=pc, o=self.o2, b=self.x, en=self.v[0], a=self.y)",
       "LeafBits(o=self.ob, x=pc)"],
@@ -258,6 +307,8 @@ LEAF_DECLARED = {
     "LeafDerivedOut": [("a", "in", U3), ("o", "out", U3), ("f", "out", SL)],
     "LeafSel": [("a", "in", U3), ("b", "in", U3), ("en", "in", SL), ("o", "out", U3), ("p", "out", BV2)],
     "LeafInit": [("clk", "in", SL), ("reset", "in", SL), ("o", "out", U3)],
+    "DGate": [("a", "in", U3), ("o", "out", U3)], "DCell": [("a", "in", U3), ("b", "in", U3), ("o", "out", U3)],
+    "DPathA": [("a", "in", U3), ("b", "in", U3), ("o", "out", U3)], "DPathB": [("a", "in", U3), ("b", "in", U3), ("o", "out", U3)],
 }
 
 
@@ -439,6 +490,12 @@ def run(tier: str) -> int:
                 got_l = [(n, m, str(t)) for n, m, t in d.ports]
                 if want is not None and sorted(got_l) != sorted(want):
                     rep.violation(f"interface|{key}|{d.name}", f"{key}: unit {d.name} is emitted with ports {got_l}, declared {want}", {"vhdl": th})
+            # every design unit is emitted after all units it instantiates
+            pos = {d.name.lower(): k for k, d in enumerate(lib_h.order)}
+            for d in lib_h.order:
+                for inst in d.insts:
+                    if pos.get(inst.entity.lower(), -1) >= pos[d.name.lower()]:
+                        rep.violation(f"unit-order|{key}", f"{key}: unit {d.name} is emitted before {inst.entity}, which it instantiates (order {[x.name for x in lib_h.order]})", {"vhdl": th})
             units = [d.name for d in lib_h.order]
             if len(units) != len(set(u.lower() for u in units)) or set(units) - {"Top"} != templates or units[-1] != "Top":
                 rep.violation(f"units|{key}", f"{key}: emitted units {units}, expected one unit per template {sorted(templates)} followed by Top", {"vhdl": th})
